@@ -218,14 +218,28 @@ def r2_functions(program, folder, rep, eths):
                                              ("y", hpoly, ry))):
         got = poly(yt[1 + k])
         ok = False
+
+        def same(p_, q_):
+            # equal as written, or provably equal (round-ups have several
+            # spellings: (n + 11) // 12 * 12, n + (-n % 12), -(-n // 12) * 12)
+            from ..poly import eq as _eq
+            return p_ == q_ or fl.prove(
+                fl.cfg.entry, _eq(fl.demod(p_), fl.demod(q_)),
+                use_facts=False)
+        # the modulus of the yielded coordinate
+        gt = plain(yt[1 + k])
         for cv in set(cellv):
             a = [poly(z) for z in cv[1][2]]
-            if a[0] == Poly.const(0) and a[1] == size and \
+            if a[0] == Poly.const(0) and same(a[1], size) and \
                     a[2] == Poly.const(12):
                 v = poly(cv)
                 d = poly(("comp", PHI, k))
                 for r in (root, fl.mod(root, Poly.const(12))):
                     if got == fl.mod(v + d + r, size):
+                        ok = True
+                    elif gt[0] == "binop" and gt[1] == "Mod" and \
+                            same(poly(gt[3]), size) and \
+                            poly(gt[2]) == v + d + r:
                         ok = True
         rep.check(ok, "C19-R2", inst,
                   "yielded %s = (cell origin + board offset + root_%s) %% "
@@ -387,7 +401,7 @@ def r4_dimensions(program, rep):
             raise AnalysisError("standard_system_dimensions: the height "
                                 "factor of the result")
 
-        def factor_fact(facts):
+        def factor_fact(facts, HT=HT):
             for t, p in facts:
                 o = None
                 if p and t[0] == "cmp" and t[1] == "Eq" and \
@@ -411,6 +425,21 @@ def r4_dimensions(program, rep):
             brk = [n for n in T.cfg.nodes if isinstance(n.ast, ast.Break)]
             okb = bool(brk) and all(factor_fact(T.all_facts(n))
                                     for n in brk)
+        if not okb:
+            # a scan that keeps a divisor found: every value the height
+            # factor can hold is 1 or was stored under the factor test of
+            # that very value
+            raw = T.term(last[0].value.elts[1], rn_t)
+            mus = [st_ for st_ in subterms(raw) if st_[0] == "mu"]
+            if len(mus) == 1:
+                vals = []
+                for i in mus[0][1].ids:
+                    b_ = T.binds[i]
+                    v_ = plain(T._bind_term(b_))
+                    vals.append(v_ == ("const", 1) or factor_fact(
+                        T.all_facts(b_.node), HT=v_))
+                okb = bool(vals) and all(vals) and plain(HT) == plain(
+                    mus[0])
     rep.check(okb, "C19-R4", inst, "the factor search stops only where "
               "triads % h == 0 for the very h the result uses (so w * h == "
               "triads)",
